@@ -115,6 +115,39 @@ def line_tracer(limit, alloc=False):
     return glob, state
 
 
+class lib_logging:
+    """The calling client has switched the library's logging on (the harness keeps it off
+    otherwise): every `PyMatterSim...` logger at the given level, records formatted and written
+    (to the null device).  Results must not depend on it."""
+    _sink = None
+
+    def __init__(self, level="DEBUG"):
+        self.level = level
+
+    def __enter__(self):
+        import logging
+        if lib_logging._sink is None:
+            lib_logging._sink = simio.real_open(os.devnull, "w")
+        self.saved = []
+        self.was = logging.root.manager.disable
+        logging.disable(logging.NOTSET)
+        for name, lg in sorted(logging.root.manager.loggerDict.items()):
+            if name.startswith("PyMatterSim") and isinstance(lg, logging.Logger):
+                self.saved.append((lg, lg.level))
+                lg.setLevel(getattr(logging, self.level))
+                for h in lg.handlers:
+                    if isinstance(h, logging.StreamHandler) and h.stream is not lib_logging._sink:
+                        h.setStream(lib_logging._sink)
+        return self
+
+    def __exit__(self, *a):
+        import logging
+        for lg, lv in self.saved:
+            lg.setLevel(lv)
+        logging.disable(self.was)
+        return False
+
+
 CHUNKS = (8, 24, 64, 256, 8192)
 BUFS = (16, 48, 128, 512, 8192)
 
@@ -185,6 +218,7 @@ class WorldBase:
         io = self.ctx.io
         line_fault = fault is not None and fault.get("kind") in LINE_FAULTS
         io.begin_op(None if line_fault else fault)
+        refired0 = getattr(io, "refired", 0)
         if fault:
             self.ctx.faults_configured += 1
         res = None
@@ -202,6 +236,9 @@ class WorldBase:
                 sys.settrace(None)
                 state["disarm"]()
         nev, dig, fired = io.end_op()
+        again = getattr(io, "refired", 0) - refired0
+        if again:
+            self.ctx.faults_fired["oserror_write_again_same_call"] = self.ctx.faults_fired.get("oserror_write_again_same_call", 0) + again
         if line_fault and state["fired"]:
             fired = (fault["kind"], "line", fault["at"])
         if fired and fired[0] == "yield":
